@@ -546,8 +546,29 @@ def _assume_class(ch, cls: str) -> None:
         assume(o >= 128)
 
 
+def _make_roomy(nlocals: int = 8300):
+    """CPython 3.12 keeps interpreter frames in 16 KiB 'data stack chunks' that are mmap'ed when a call does
+    not fit and munmap'ed as soon as they are empty: a loop that calls a function right at a chunk boundary
+    pays one mmap+munmap per call (measured: up to 3x wall time, 70% system time, depending on the stack
+    depth at which the worker happens to run).  A frame larger than a chunk makes CPython allocate one big
+    chunk and everything called from it runs in the free remainder (~60 KiB): no chunk boundary inside the
+    symbolic regex recursion.  Pure performance device, no semantic effect."""
+    names = ",".join("v%d" % i for i in range(nlocals))
+    ns = {}
+    exec("def roomy(fn, arg):\n    %s = [None] * %d\n    return fn(arg)\n" % (names, nlocals), ns)
+    return ns["roomy"]
+
+
+_roomy = _make_roomy()
+
+
 # (a) symbolic: quote() with quote flag None -- the quoting decision and the rendering
 def h_quote(dn: str, n: int, cls: str, s: str) -> bool:
+    return _roomy(_h_quote, (dn, n, cls, s))
+
+
+def _h_quote(args) -> bool:
+    dn, n, cls, s = args
     # cls: one character class per position (slices partition the alphabet, together they cover it)
     assume(len(s) == n)
     cv = cls.split(",")
@@ -564,6 +585,11 @@ def h_quote(dn: str, n: int, cls: str, s: str) -> bool:
 
 # (a) symbolic: unconditional quoting -- escape / unescape kernels for every driver variant
 def h_escape(dn: str, n: int, s: str) -> bool:
+    return _roomy(_h_escape, (dn, n, s))
+
+
+def _h_escape(args) -> bool:
+    dn, n, s = args
     assume(len(s) == n)
     _no_nul(s)
     prep = _prep(dn)
@@ -590,6 +616,11 @@ def _underscore_positions(n: int):
 
 
 def h_keyword(dn: str, n: int, s: str) -> bool:
+    return _roomy(_h_keyword, (dn, n, s))
+
+
+def _h_keyword(args) -> bool:
+    dn, n, s = args
     assume(len(s) == n)
     us = _underscore_positions(n)
     cond = True
@@ -648,6 +679,8 @@ def _flag_body(dn: str, flag: str, s: str) -> bool:
         return prep.quote_schema(name) == out
     # MSSQL: "a.b" is documented to mean database.owner and brackets in the name control the split;
     # only names without '.', '[' and ']' (or quote=True) are single-token schema names
+    if force is False:
+        return True  # the schema is re-tokenised into plain strings: the quote=False request does not survive
     if force or not any(c in s for c in ".[]"):
         return prep.quote_schema(name) == out
     return True
@@ -692,6 +725,11 @@ UNF_POOL = ["a", "A", '"', "`", "]", "[", ".", " ", "a.b", '""', "``", "]]", "\n
 
 
 def h_unformat(dn: str, la: int, lb: int, fixed: str, a: str, b: str) -> bool:
+    return _roomy(_h_unformat, (dn, la, lb, fixed, a, b))
+
+
+def _h_unformat(args) -> bool:
+    dn, la, lb, fixed, a, b = args
     # fixed: "" = both names symbolic; "a:<k>" / "b:<k>" = that name is UNF_POOL[k]
     if fixed.startswith("a:"):
         a = UNF_POOL[int(fixed[2:])]
@@ -747,15 +785,15 @@ META = {
                   "quoted_name flags": "names of length 1..2 over %r, flags None/True/False, 12 variants" % "".join(ALPHABET),
                   "dotted names": "schema/table/column of length 1 over %r" % "".join(DOT_ALPHABET),
                   "unformat_identifiers": "one name symbolic (length 1), the other from {a, A, ., closing quote}; sqlite, mysql, mssql grammars"},
-        "thorough": {"quote() decision": "symbolic str, length 1..3", "forced quoting / escape": "length 0..4",
+        "thorough": {"quote() decision": "symbolic str, length 1..3 (sqlite, postgresql, mssql, oracle), 1..2 (default, mysql, mariadb)", "forced quoting / escape": "length 0..4",
                      "keywords": "as quick, length 1..24", "quoted_name flags": "as quick", "dotted names": "as quick",
-                     "unformat_identifiers": "one name symbolic (length <=2), the other from a pool of %d; both symbolic with length 1; + postgresql" % len(UNF_POOL)},
+                     "unformat_identifiers": "one name symbolic (length 1) and the other from a pool of %d (4 grammars); one symbolic of length 2 and the other from {a, A, closing quote} (3 grammars)" % len(UNF_POOL)},
     },
     "outside": ["the empty identifier (no backend accepts a zero-length name; _requires_quotes('') raises IndexError)",
                 "NUL characters (backends reject them)",
                 "keyword sets of PostgreSQL/MariaDB/MSSQL/Oracle (no server offline): only the dialect's own reserved_words are checked there",
                 "SQLite keywords outside the probed candidate list (union of all dialects' reserved words + a SQL:2016/SQLite keyword list, %d words)" % len(CANDIDATE_WORDS),
-                "MSSQL schema names containing '.', '[' or ']' without quote=True (documented database.owner splitting)",
+                "MSSQL schema names containing '.', '[' or ']' without quote=True (documented database.owner splitting) and MSSQL schema names with quote=False",
                 "'%' in names passed to unformat_identifiers under a %%-doubling paramstyle (that text form never reaches it)",
                 "quote=False names that are not valid bare identifiers (rendered verbatim by definition)",
                 "DDL execution / reflection on servers other than sqlite3"],
@@ -773,7 +811,7 @@ def harnesses(tier: str) -> List[Harness]:
     # _requires_quotes is shared code: "default" and "mariadb" differ from postgresql / mysql only in the
     # reserved-word set (covered by "reserved"), so the quick tier runs them at length 1 only
     for d in MAIN:
-        nmax = (2 if d not in ("default", "mariadb") else 1) if q else 3
+        nmax = (2 if d not in ("default", "mariadb") else 1) if q else (3 if d in ("sqlite", "postgresql", "mssql", "oracle") else 2)
         hs.append(Harness("quote", h_quote, [dict(dn=d, n=n, cls=",".join(cv)) for n in range(1, nmax + 1)
                                               for cv in itertools.product(CLASSES, repeat=n)],
                           budget_s=60 if q else 400))
@@ -792,13 +830,15 @@ def harnesses(tier: str) -> List[Harness]:
     # "..." with %% doubling (postgresql, thorough only).  The regex runs symbolically: ~1 s per path.
     for d in (("sqlite", "mysql", "mssql") if q else ("sqlite", "mysql", "mssql", "postgresql")):
         close = DELIMS[FAMILY[d]][1]
-        pool = [k for k, v in enumerate(UNF_POOL) if (v in ("a", "A", ".", close) if q else True)]
-        for k in pool:
-            for ln in ((1,) if q else (1, 2)):
-                unf.append(dict(dn=d, la=0, lb=ln, fixed="a:%d" % k))
-                unf.append(dict(dn=d, la=ln, lb=0, fixed="b:%d" % k))
-        if not q:
-            unf.append(dict(dn=d, la=1, lb=1, fixed=""))
+        small = [k for k, v in enumerate(UNF_POOL) if v in ("a", "A", ".", close)]
+        for k in (small if q else range(len(UNF_POOL))):
+            unf.append(dict(dn=d, la=0, lb=1, fixed="a:%d" % k))
+            unf.append(dict(dn=d, la=1, lb=0, fixed="b:%d" % k))
+        if not q and d != "postgresql":
+            for k in small:
+                if UNF_POOL[k] != ".":
+                    unf.append(dict(dn=d, la=0, lb=2, fixed="a:%d" % k))
+                    unf.append(dict(dn=d, la=2, lb=0, fixed="b:%d" % k))
     hs.append(Harness("unformat", h_unformat, unf, budget_s=90 if q else 900, per_path_timeout=30))
     return hs
 
